@@ -33,7 +33,7 @@ func TestMain(m *testing.M) {
 			"Oracle (round trip): a server restored from the directory serves exactly the digest recorded when the SAVE was acknowledged, minus keys whose deadline has passed at restore time; LASTSAVE after restore (and after SAVE) is the virtual time of the snapshot that was taken; a SAVE that finds nothing new leaves LASTSAVE and the files unchanged; data written after the last snapshot is not there after restore. "+
 			"Leg 2 (real time, configuration sweep threshold ∈ {1,3,10} × interval ∈ {50 ms, 200 ms}): exactly threshold writes, and threshold+2 writes inside one interval, must each be followed by an automatic snapshot (LASTSAVE set and a restore reproduces the dataset) within 20 intervals; a miss is reported as inconclusive unless it repeats on two fresh servers. "+
 			"A case is one history; non-trivial = the snapshotted dataset has ≥ 2 value types or ≥ 2 databases or a deadline, and is restored; distinct = FNV-64 of the history.",
-		"snapshots taken while writers are active are not exercised in this leg (see C05 for concurrent SAVE)",
+		"snapshots taken while writers are active: separate leg (TestConcurrentWriters) — writers keep pairs of keys of every type in step (a-key updated, then z-key, fillers in between; MSET pairs) while SAVE runs 2–5 times; every snapshot is restored into a fresh server and must satisfy value(a) − value(z) ∈ {0,1} for every pair",
 		"two snapshots in one virtual millisecond are never generated: snapshot directories are named by the millisecond and no running clock can produce that")
 	common.Main(m, rec)
 }
@@ -358,8 +358,9 @@ func TestReplay(t *testing.T) {
 		t.Skip()
 	}
 	var rf struct {
-		Ops []op   `json:"ops"`
-		Leg string `json:"leg"`
+		Ops        []op      `json:"ops"`
+		Leg        string    `json:"leg"`
+		Concurrent *concCase `json:"concurrent"`
 	}
 	if err := common.LoadJSON(p, &rf); err != nil {
 		t.Fatalf("HARNESS-ERROR: %v", err)
@@ -371,6 +372,10 @@ func TestReplay(t *testing.T) {
 	}()
 	if rf.Leg == "auto" {
 		TestAutoSnapshotReplay(t)
+		return
+	}
+	if rf.Leg == "concurrent" && rf.Concurrent != nil {
+		rapid.Check(t, func(t *rapid.T) { runConcurrent(t, rf.Concurrent) })
 		return
 	}
 	rapid.Check(t, func(t *rapid.T) { runCase(t, rf.Ops) })
